@@ -42,13 +42,14 @@ func (t *Trie) Find(method string, path string) (*Template, bool) {
 
 	path = strings.TrimPrefix(path, "/")
 
-	return dfs(n, path, path, false)
+	return dfs(n, path, path, false, false)
 }
 
-func dfs(n *node, orig, path string, last bool) (*Template, bool) {
+// wild tells whether n was reached through a wildcard, which might have consumed the verb of the path.
+func dfs(n *node, orig, path string, last, wild bool) (*Template, bool) {
 	// if this is the end, find the appropriate template without going deeper
 	if last {
-		return dfsLeaf(n, orig)
+		return dfsLeaf(n, orig, wild)
 	}
 
 	component := path
@@ -59,16 +60,19 @@ func dfs(n *node, orig, path string, last bool) (*Template, bool) {
 
 	// try matching literal first since its the most specific
 	if n.literals[component] != nil {
-		return dfs(n.literals[component], orig, path, slash == -1)
+		return dfs(n.literals[component], orig, path, slash == -1, false)
 	}
 
 	// then literal with verb if this is the last component
 	if slash == -1 {
-		var verb string
+		literal := component
 
-		for verbIdx := strings.LastIndex(component, ":"); verbIdx != -1; verbIdx = strings.LastIndex(component, ":") {
-			verb, component = component[verbIdx+1:], component[:verbIdx]
-			if next := n.literals[component]; next != nil && next.verbs[verb] != nil {
+		// the verb is everything after the colon the literal ends at, not just the part up to the next colon
+		for verbIdx := strings.LastIndex(literal, ":"); verbIdx != -1; verbIdx = strings.LastIndex(literal, ":") {
+			literal = component[:verbIdx]
+			verb := component[verbIdx+1:]
+
+			if next := n.literals[literal]; next != nil && next.verbs[verb] != nil {
 				return next.verbs[verb].tmpl, true
 			}
 		}
@@ -76,19 +80,24 @@ func dfs(n *node, orig, path string, last bool) (*Template, bool) {
 
 	// then wildcards
 	if n.wildcard != nil {
-		return dfs(n.wildcard, orig, path, slash == -1)
+		return dfs(n.wildcard, orig, path, slash == -1, true)
 	}
 
 	if n.multiWildcard != nil {
-		return dfs(n.multiWildcard, orig, "", true)
+		return dfs(n.multiWildcard, orig, "", true, true)
 	}
 
 	return nil, false
 }
 
-func dfsLeaf(n *node, orig string) (*Template, bool) {
+func dfsLeaf(n *node, orig string, wild bool) (*Template, bool) {
 	if n.tmpl != nil {
 		return n.tmpl, true
+	}
+
+	// a literal matched the whole last component, including anything that looks like a verb
+	if !wild {
+		return nil, false
 	}
 
 	// wildcards might've consumed the verb, additionally check if the original path matches any verb here
